@@ -74,6 +74,25 @@ impl Prop for C12 {
         let n = if tier == Tier::Thorough && run % 64 == 63 { 3000 } else { *rng.pick(&[3usize, 8, 20, 60, 150, 300]) };
         let n = rng.urange(1, n);
         let mut k: i16 = 0;
+        // a stuck fault: one and the same error reported over and over (every one of them is an
+        // insertion: 257..700 identical entries in a row, then read back / counted)
+        if rng.chance(1, 40) {
+            let e = gen_err_spec(&mut rng);
+            let reps = *rng.pick(&[255usize, 256, 257, 258, 300, 513, 700]);
+            for j in 0..reps {
+                t.steps.push(Step::Q(QOp::Push(e.clone())));
+                if j + 1 == 256 && rng.chance(1, 2) {
+                    t.steps.push(Step::Q(QOp::Len));
+                }
+            }
+            t.steps.push(Step::Q(QOp::Len));
+            if rng.chance(1, 2) {
+                for _ in 0..rng.urange(1, 8) {
+                    t.steps.push(Step::Q(QOp::Pop));
+                }
+                t.steps.push(Step::Q(QOp::Len));
+            }
+        }
         for _ in 0..n {
             let op = match rng.weighted(&[w_push, w_pop, w_clear, w_len, w_empty]) {
                 0 => {
